@@ -3,8 +3,13 @@ CFG = {
         J("scaled", "c02-comp --aspect C13", imports="Base Stream Inst Run RunFsComp", shard=20),
         J("scaled", "witness --only C13"),
         J("scaled", "c13", imports="Base Stream Inst Run RunC13"),
+        # work package wrows: PositionLayerWriter + write_all over a scripted sink vs Sink.v
+        J("scaled", "c13-sinkrows", imports="Base Stream Inst Run RunWRows"),
+        J("scaled", "c13-encsink", imports="Base Stream Inst Run RunWRows", shard=10),
+        J("scaled", "c13-hdr", imports="Base Stream Inst Run RunHdr"),
+        J("prod", "c13-hdr", imports="Base Stream Inst Run RunHdr"),
     ],
-    "run_modules": ["RunC13", "RunFsComp"],
+    "run_modules": ["RunC13", "RunFsComp", "RunWRows", "RunWRowsProofs", "RunHdr"],
     "rule": "scaled constants: 48 (quick) / 300 (thorough) generated archives (as C01: 1-4 files, boundary-sized interleaved pieces, the 4 layer "
             "combinations in turn, levels {0,1,5,9,11}), each (a) written through a sink accepting at most sched[i] bytes at the i-th write "
             "(schedules: constant 1, 2, 3, one of {5,7,13,31,97}, 100000, or 2-11 random quotas in 1..39; last entry repeats) and reporting "
@@ -38,7 +43,7 @@ CFG = {
         "the model sink follows a finite schedule then accepts everything: any terminating run makes finitely many calls, so it covers sinks "
         "that throttle or interrupt forever; the theorems quantify over all finite schedules",
         "writing side is proved for the archive writer model's block stream and for any append-only producer handing its increments down with "
-        "write_all (the encryption layer does: inner.write_all for ciphertext and tags; its instantiation is not a separate theorem); "
+        "write_all (the encryption layer does: inner.write_all for ciphertext and tags; instantiated per call by C13_enc_writer_over_sink / C13_enc_finalize_over_sink); "
         "the compression layer's writer (brotli CompressorWriter over the inner layer) is covered by the oracle only",
         "reading side is proved for the block parser and get_hash (read_footer, get_file/read, linear extraction: same combinators, not lifted; "
         "covered by the correspondence rows); for the encryption reader it follows from enc_reader_refines (C11/C01: any inner stream "
@@ -49,3 +54,33 @@ CFG = {
 # work package fscomp: the fail-safe decompression reader (appended to the texts above)
 CFG["rule"] += "; " + CFG.pop("rule_fscomp")
 CFG["explanation"] += " || " + CFG.pop("explanation_fscomp")
+
+# work package wrows
+CFG["rule"] += ("; c13-sinkrows: 240 (quick) / 1500 (thorough) scripts for a destination below the real PositionLayerWriter (over RawLayerWriter): 0, 1-3 or 4-39 events, "
+                "each Accept(k) (k constant 1, 0..3, 1..40 or one of {0,1,7,100000}; at least one byte is taken), Interrupted (30%), and in one script in four also Ok(0) "
+                "and a hard error; then everything is accepted; 1-5 buffers of {0,1,2,3,9,17,40,64,100} bytes, two thirds written with std's write_all, one third with "
+                "single Write::write calls")
+CFG["explanation"] += (" || wrows: job c13-sinkrows compares, for the real PositionLayerWriter + std::io::Write::write_all (and single write calls) over a scripted sink, the "
+                       "result of every call, position() after it, the complete log of what the sink was offered and answered (offered length, outcome, accepted) and the "
+                       "bytes it holds with Sink.write_all / Sink.pos_write over Sink.sink_write run on the same script (theorems C13_rows_write_all / C13_rows_write: the "
+                       "logging wrapper used for the rows is invisible, the rows ARE write_all / pos_write of Sink.v); oracle: position() = bytes in the destination, and the "
+                       "destination holds the concatenation when every write_all returned Ok")
+
+CFG["rule"] += ("; c13-encsink: 100 (quick) / 600 (thorough) runs of the real EncryptionLayerWriter (fixed random key / nonce) over a scripted destination: 1-5 single "
+                "write / write_all calls of {0, 1, CIPHERBUF-1..+1, CHUNK-1..+1, 2*CHUNK, 2*CHUNK+1, 3*CHUNK+5, random} bytes with flushes in between, then finalize; scripts of "
+                "0-3, 4-29 or 30-399 events, one in four Interrupted, the others Accept(k) (k = 1, 0..3, 1..30 or one of {1,15,16,17,100000})")
+CFG["explanation"] += (" || c13-encsink: after EVERY call of the real encryption layer writer over the scripted destination, the accepted count, the number of bytes the "
+                       "destination holds and the number of scripted events it has used (= the number of write calls it saw), and at the end its bytes, equal EncLayer.ew_write / "
+                       "ew_finalize pushed through Sink.push_outs with the buffers of the layer's inner.write_all calls (tag of the closed chunk, then ciphertext) "
+                       "(theorems C13_enc_writer_over_sink / C13_enc_finalize_over_sink: in that composition every call succeeds with the model's accepted count and the "
+                       "destination holds exactly ew_out — the instantiation of C13_push_outs for the encryption layer, which was not a separate theorem before); oracle: "
+                       "the destination holds the bytes the same calls leave in memory and every write accepts the same count")
+# work package hdrsrc: the header stage through short-read sources
+CFG["rule"] += ("; c13-hdr (both flavours): ArchiveHeader::from through sources returning at most 1, 2, 3, 7 bytes per read, a random schedule "
+                "and memory, on valid headers (4 layer combinations, 1-3 recipients), every truncation of a header and hostile headers "
+                "(magic, version, Option tag, layers, key count in {0, n-1, n+1, 2^20, limit/48, 2^31, 2^63+5, 2^64-1}): outcome, error class and "
+                "bytes consumed from the source are model-compared (RunHdr.hdr_read = HeaderStream.read_header_s over Stream.Throttled)")
+CFG["explanation"] += (" || header stage (props/C13.v C13_header_any_source, C13_archive_open_any_source): ArchiveHeader::from modelled as the code's "
+                "read_exact sequence (3, 4, then bincode's single-byte and 8-byte reads, limit charged before each) over ANY stream refining a cursor "
+                "returns what Archive.read_header returns on the bytes and leaves the source at the end of the header; composed with the layer "
+                "theorems (any refining inner stream) and C01: archive_open over any such source of an archive_write output reads back what was written")
